@@ -152,6 +152,8 @@ Section AesLayer.
     else
       let m := N.min (a_remaining s) n in
       let* (ct, i1) := ird (a_inner s) m in
+      (* fix D16: the data ends before the declared ciphertext length *)
+      if (len ct =? 0) && negb (m =? 0) then Err (EIo KUnexpectedEof IAesTruncated) else
       let remaining := a_remaining s - len ct in
       let seen := a_seen s ++ ct in
       let '(c', pt) := ctr_crypt (a_ctr s) ct in
